@@ -361,3 +361,51 @@ pub fn par_for_each<T: Sync>(items: &[T], threads: usize, body: impl Fn(usize, &
         }
     });
 }
+
+type Job = Box<dyn FnOnce() + Send>;
+
+thread_local! {
+    static DEADLINE_WORKER: RefCell<Option<std::sync::mpsc::Sender<Job>>> = const { RefCell::new(None) };
+}
+
+fn deadline_worker() -> std::sync::mpsc::Sender<Job> {
+    let (tx, rx) = std::sync::mpsc::channel::<Job>();
+    std::thread::spawn(move || {
+        while let Ok(job) = rx.recv() {
+            let _ = panic::catch_unwind(AssertUnwindSafe(job));
+        }
+    });
+    tx
+}
+
+/// Runs `func` on this thread's helper thread and waits at most `secs` seconds for it: None when it
+/// has not returned by then (the helper is abandoned with the call still running and the next call
+/// gets a new one). One long-lived helper per calling thread: creating a thread per call is far too
+/// slow on this machine.
+pub fn with_deadline<R: Send + 'static>(secs: u64, func: impl FnOnce() -> R + Send + 'static) -> Option<R> {
+    let (rtx, rrx) = std::sync::mpsc::channel();
+    let mut job: Option<Job> = Some(Box::new(move || {
+        let _ = rtx.send(func());
+    }));
+    DEADLINE_WORKER.with(|cell| {
+        let mut slot = cell.borrow_mut();
+        for _ in 0..2 {
+            let tx = slot.get_or_insert_with(deadline_worker);
+            match tx.send(job.take().unwrap()) {
+                Ok(()) => break,
+                Err(back) => {
+                    job = Some(back.0);
+                    *slot = None;
+                }
+            }
+        }
+    });
+    match rrx.recv_timeout(std::time::Duration::from_secs(secs)) {
+        Ok(res) => Some(res),
+        Err(std::sync::mpsc::RecvTimeoutError::Timeout) => {
+            DEADLINE_WORKER.with(|cell| *cell.borrow_mut() = None);
+            None
+        }
+        Err(std::sync::mpsc::RecvTimeoutError::Disconnected) => panic!("the deadline helper dropped a call (it panicked outside `guarded`)"),
+    }
+}
